@@ -136,6 +136,13 @@ Section Pianoroll.
     rewrite zrange_irange, Hb. cbn. reflexivity.
   Qed.
 
+  Theorem pianoroll_default_label hist :
+    0 <= pr_default_label < pr_num_classes size /\ pr_decode size pr_default_label hist = Some [].
+  Proof.
+    destruct (pr_label_decode [] hist eq_refl) as (l & Hl & Hr & Hd). cbn in Hl. inversion Hl; subst.
+    unfold pr_default_label. auto.
+  Qed.
+
   (* through the sequence-level functions *)
   Theorem pianoroll_decode_label (es : list (list Z)) p ev :
     0 <= p -> nth_error es (Z.to_nat p) = Some ev -> pr_valid size ev = true ->
